@@ -97,9 +97,15 @@ def ratPow (x : Rat) (n : Int) : Except Err Rat :=
   if n ≥ 0 then .ok (x ^ n.toNat)
   else if x = 0 then .error .other else .ok ((x ^ (-n).toNat)⁻¹)
 
+/-- One step of the running sum: `acc + a * (x ** n)`. -/
+def polyStep (x : Rat) (acc : Rat) (t : PolyTerm) : Except Err Rat :=
+  match ratPow x t.exp with
+  | .ok p => .ok (acc + t.coef * p)
+  | .error e => .error e
+
 /-- `sum(a * (x ** n) for a, n in coefficients)` -/
 def polyEval (terms : List PolyTerm) (x : Rat) : Except Err Rat :=
-  terms.foldlM (fun acc t => do let p ← ratPow x t.exp; pure (acc + t.coef * p)) 0
+  terms.foldlM (polyStep x) 0
 
 def Calibrator.calibrate (c : Calibrator) (x : Rat) : Except Err Rat :=
   match c with
